@@ -33,6 +33,8 @@ func (V *Verifier) VerifyFunc(fn *ssa.Function, con *Contract) (res *FuncResult)
 		ghostOld: map[string]*Val{}, usedContracts: map[string]bool{}}
 	res.Ex = ex
 	ex.noSafe = con.NoSafe
+	acMulMode = con.Model == "acmul"
+	defer func() { acMulMode = false }()
 	defer func() {
 		if r := recover(); r != nil {
 			if u, ok := r.(unsupported); ok {
@@ -213,18 +215,10 @@ func (V *Verifier) VerifyFunc(fn *ssa.Function, con *Contract) (res *FuncResult)
 			}
 		}
 		// restricted sets: component -> allowed refs (entry state)
-		restrict := map[string][]*Term{}
+		restrict := map[string][]*Expr{}
 		for m, es := range con.ModSets {
 			for _, c := range ex.compsOfSpec(m, nil) {
-				var set []*Term
-				for _, e := range es {
-					v, err := env0.Eval(e)
-					if err != nil {
-						ex.fail("modifies set: %v", err)
-					}
-					set = append(set, refOf(v.T))
-				}
-				restrict[c] = set
+				restrict[c] = es
 			}
 		}
 		var names []string
@@ -237,10 +231,10 @@ func (V *Verifier) VerifyFunc(fn *ssa.Function, con *Contract) (res *FuncResult)
 		for _, c := range names {
 			var goals []*Term
 			init := ex.initHeap[c]
-			var notIn []*Term
 			qq := Const("fr?"+c, SInt)
-			for _, r := range restrict[c] {
-				notIn = append(notIn, Neq(qq, r))
+			notIn, err := ex.notInSet(env0, restrict[c], qq)
+			if err != nil {
+				ex.fail("modifies set: %v", err)
 			}
 			for _, r := range rets {
 				now, ok := r.st.heap[c]
@@ -252,7 +246,7 @@ func (V *Verifier) VerifyFunc(fn *ssa.Function, con *Contract) (res *FuncResult)
 					continue
 				}
 				q := qq
-				goals = append(goals, Implies(r.reach, Forall([]*Term{q}, Implies(And(Le(IntLit(0), q), Lt(q, alloc0), And(notIn...)), Eq(Select(now, q), Select(init, q))))))
+				goals = append(goals, Implies(r.reach, Forall([]*Term{q}, Implies(And(Le(IntLit(0), q), Lt(q, alloc0), notIn), Eq(Select(now, q), Select(init, q))))))
 			}
 			ex.oblige("frame", c, True, And(goals...), "component "+c+": unchanged on pre-existing objects outside the declared modifies set")
 		}
